@@ -397,6 +397,13 @@ def parse_args(*args, **kwargs):
 
 
 def main(*args, **kwargs):
+    # Bitstreams may contain arbitrarily large exp-golomb coded integers. Python
+    # 3.11+ refuses, by default, to convert integers with more than a few
+    # thousand digits to strings, which would turn merely displaying such a
+    # value into an internal error.
+    if hasattr(sys, "set_int_max_str_digits"):
+        sys.set_int_max_str_digits(0)
+
     args = parse_args(*args, **kwargs)
 
     validator = BitstreamValidator(
